@@ -298,6 +298,23 @@ Definition votes_required_signers_gen (fixed : bool) (st : list vote_op) : list 
                      | Some (SWPlutus p) => if fixed then olist (ps_required_signers (pw_script p)) else []
                      | None => [] end) st).
 Definition votes_required_signers := votes_required_signers_gen votes_count_plutus_signers.
+(* VotingBuilder::get_plutus_witnesses: the redeemer index of a vote = number of voters that precede the voter in
+   ledger_order_key = (kind, script credentials before key credentials, hash bytes).  [hash_rank] gives the rank
+   of a credential's 28 hash bytes (a property of the identifiers, given with the case). *)
+Definition hash_rank := list (N * N).
+Fixpoint rank_of (hr : hash_rank) (c : N) : N :=
+  match hr with [] => 0 | (x, r) :: t => if N.eqb x c then r else rank_of t c end.
+Definition voter_order_key (hr : hash_rank) (v : voter) : N * (N * N) :=
+  (v_kind v, ((if voter_has_script v then 0 else 1), rank_of hr (cred_item (v_cred v)))).
+Definition key3_ltb (a b : N * (N * N)) : bool :=
+  (fst a <? fst b) || ((fst a =? fst b) && ((fst (snd a) <? fst (snd b)) ||
+                                             ((fst (snd a) =? fst (snd b)) && (snd (snd a) <? snd (snd b))))).
+Definition vote_index (hr : hash_rank) (st : list vote_op) (v : voter) : N :=
+  N.of_nat (length (filter (fun e : vote_op => key3_ltb (voter_order_key hr (fst e)) (voter_order_key hr v)) st)).
+Definition votes_redeemers (hr : hash_rank) (st : list vote_op) : list (N * N) :=
+  flat_map (fun e : vote_op => match snd e with
+                               | Some (SWPlutus p) => [(vote_index hr st (fst e), pw_red p)]
+                               | _ => [] end) st.
 Definition votes_plutus (st : list vote_op) : list ptagged :=
   flat_map (fun e => wit_plutus TAG_VOTE (voter_item (fst e)) (snd e)) st.
 
@@ -338,6 +355,31 @@ Definition mint_run (ops : list mint_wit) : list mint_wit :=
   fold_left (fun st op => fst (mint_step st op)) ops [].
 Definition mint_acc (ops : list mint_wit) : list bool :=
   snd (fold_left (fun '(st, acc) op => let '(st', b) := mint_step st op in (st', acc ++ [b])) ops ([], [])).
+(* a call add_asset(witness, asset name, amount): update_mint_value refuses a zero amount first; otherwise the
+   witness is validated against the policy's entry (mint_step) and the amount is added to the asset's quantity
+   (quantities outside the Int range -2^64 .. 2^64-1 are not modelled: the generator stays far below) *)
+Record mint_op : Type := { mo_wit : mint_wit; mo_asset : N; mo_amount : Z }.
+Definition mint_nonzero (o : mint_op) : bool := negb (Z.eqb (mo_amount o) 0).
+Definition mint_wits_of (ops : list mint_op) : list mint_wit := map mo_wit (filter mint_nonzero ops).
+Definition qkey_eqb (a b : sid * N) : bool := N.eqb (fst a) (fst b) && N.eqb (snd a) (snd b).
+Fixpoint q_add (q : list ((sid * N) * Z)) (k : sid * N) (x : Z) : list ((sid * N) * Z) :=
+  match q with
+  | [] => [(k, x)]
+  | (k', y) :: t => if qkey_eqb k k' then (k', (y + x)%Z) :: t else (k', y) :: q_add t k x
+  end.
+(* state: policies with their sources, acceptance of each call, accumulated quantity per (policy, asset) *)
+Definition mint_fold (ops : list mint_op) : list mint_wit * list bool * list ((sid * N) * Z) :=
+  fold_left (fun '(st, acc, q) o =>
+               if mint_nonzero o then
+                 let '(st', b) := mint_step st (mo_wit o) in
+                 (st', acc ++ [b], if b then q_add q (mw_hash (mo_wit o), mo_asset o) (mo_amount o) else q)
+               else (st, acc ++ [false], q)) ops ([], [], []).
+Definition mint_acc_ops (ops : list mint_op) : list bool := snd (fst (mint_fold ops)).
+Definition mint_quantities (ops : list mint_op) : list ((sid * N) * Z) := snd (mint_fold ops).
+(* MintBuilder::build: MintAssets::insert refuses a zero quantity ("MintAssets cannot be created with 0 value"):
+   a mint whose additions cancelled out makes build(), full_size() and build_tx fail *)
+Definition mint_cancelled (ops : list mint_op) : bool := existsb (fun e => Z.eqb (snd e) 0) (mint_quantities ops).
+
 Definition mint_swit (m : mint_wit) : swit :=
   match m with
   | MNative n => SWNative n
@@ -365,19 +407,22 @@ Record tx_ops : Type := {
   t_withdrawals : list wd_op;
   t_votes : list vote_op;
   t_proposals : list prop_op;
-  t_mint : list mint_wit;
+  t_mint : list mint_op;             (* MintBuilder::add_asset calls *)
   t_required_signers : list key;    (* TransactionBuilder::add_required_signer *)
   t_reference_inputs : list oref;   (* add_reference_input / add_script_reference_input *)
   t_extra_datums : list did;        (* add_extra_witness_datum *)
   t_dedup_explicit_refs : bool      (* config.deduplicate_explicit_ref_inputs_with_regular_inputs *)
 }.
 
+Definition mint_wits (t : tx_ops) : list mint_wit := mint_wits_of (t_mint t).
+Definition build_refused (t : tx_ops) : bool := mint_cancelled (t_mint t).
+
 (* the union computed by count_needed_vkeys, in its order; the four booleans select original (false) or
    repaired (true) behaviour of the vote, mint, proposal and genesis-delegation parts *)
 Definition needed_vkeys_gen (fv fm fp fg : bool) (t : tx_ops) : list key :=
   set_of (ib_required_signers (t_inputs t) ++ ib_required_signers (t_collateral t)
           ++ set_of (t_required_signers t)
-          ++ mint_required_signers_gen fm (mint_run (t_mint t))
+          ++ mint_required_signers_gen fm (mint_run (mint_wits t))
           ++ wd_required_signers (wd_run (t_withdrawals t))
           ++ certs_required_signers_gen fg (certs_run (t_certs t))
           ++ votes_required_signers_gen fv (votes_run (t_votes t))
@@ -394,14 +439,14 @@ Definition needed_bootstraps := needed_bootstraps_gen collateral_boots_counted.
 (* get_combined_native_scripts followed by deduplicated_clone *)
 Definition ws_native_scripts (t : tx_ops) : list sid :=
   set_of (ib_native_scripts (t_inputs t) ++ ib_native_scripts (t_collateral t)
-          ++ mint_native_scripts (mint_run (t_mint t))
+          ++ mint_native_scripts (mint_run (mint_wits t))
           ++ flat_map (fun e => wit_native (snd e)) (certs_run (t_certs t))
           ++ flat_map (fun e => wit_native (snd e)) (wd_run (t_withdrawals t))
           ++ flat_map (fun e => wit_native (snd e)) (votes_run (t_votes t))).
 
 (* get_combined_plutus_scripts *)
 Definition combined_plutus (t : tx_ops) : list ptagged :=
-  ib_plutus (t_inputs t) ++ ib_plutus (t_collateral t) ++ mint_plutus (mint_run (t_mint t))
+  ib_plutus (t_inputs t) ++ ib_plutus (t_collateral t) ++ mint_plutus (mint_run (mint_wits t))
   ++ certs_plutus (certs_run (t_certs t)) ++ wd_plutus (wd_run (t_withdrawals t))
   ++ votes_plutus (votes_run (t_votes t)) ++ props_plutus (props_run (t_proposals t)).
 
@@ -427,7 +472,7 @@ Definition ws_redeemers (t : tx_ops) : list (N * (N * N)) :=
 Definition body_inputs (t : tx_ops) : list oref := ib_body_inputs (t_inputs t).
 Definition body_collateral (t : tx_ops) : list oref := ib_body_inputs (t_collateral t).
 Definition source_ref_inputs (t : tx_ops) : list oref :=
-  ib_ref_inputs (t_inputs t) ++ mint_ref_inputs (mint_run (t_mint t))
+  ib_ref_inputs (t_inputs t) ++ mint_ref_inputs (mint_run (mint_wits t))
   ++ flat_map (fun e => wit_refs (snd e)) (wd_run (t_withdrawals t))
   ++ flat_map (fun e => wit_refs (snd e)) (certs_run (t_certs t))
   ++ flat_map (fun e => wit_refs (snd e)) (votes_run (t_votes t))
@@ -441,4 +486,7 @@ Definition body_required_signers (t : tx_ops) : list key := set_of (t_required_s
 (* which calls were accepted (true) or returned an error (false), per sub-builder, in call order *)
 Definition acceptance (t : tx_ops) : list bool :=
   certs_acc (t_certs t) ++ map wd_accepts (t_withdrawals t) ++ map vote_accepts (t_votes t)
-  ++ map prop_accepts (t_proposals t) ++ mint_acc (t_mint t).
+  ++ map prop_accepts (t_proposals t) ++ mint_acc_ops (t_mint t).
+
+(* policies of the body's mint (one entry per retained policy when the builder does not refuse) *)
+Definition body_mint_policies (t : tx_ops) : list sid := map mw_hash (mint_run (mint_wits t)).
